@@ -186,3 +186,14 @@ def rel(cmp, is_subject):
     if is_subject(r):
         return r, flip[op], l
     return None
+
+
+def signed_terms(e, sign=1):
+    """Flatten sums and differences: a + b - (c - d) -> [(+1, a), (+1, b), (-1, c), (+1, d)]."""
+    if isinstance(e, ast.BinOp) and isinstance(e.op, ast.Add):
+        return signed_terms(e.left, sign) + signed_terms(e.right, sign)
+    if isinstance(e, ast.BinOp) and isinstance(e.op, ast.Sub):
+        return signed_terms(e.left, sign) + signed_terms(e.right, -sign)
+    if isinstance(e, ast.UnaryOp) and isinstance(e.op, ast.USub):
+        return signed_terms(e.operand, -sign)
+    return [(sign, e)]
